@@ -39,7 +39,7 @@ from mpsa.match import (
 )
 from mpsa.report import Checker
 
-from .common import USER_RAISES, build_cfg, make_fallible
+from .common import USER_RAISES, build_cfg, find_unpack, make_fallible
 
 QUEUE_CTORS = {
     'SingleLane': 'fifo',
@@ -381,13 +381,9 @@ def check_consumer_pairing(ck: Checker, rid: str, m: Fifo, producer_tuple_len=2)
             v = unwrap_await(n.ast.value)
             if isinstance(v, ast.Call) and get_sites(v, m.oscope, m.q) and isinstance(n.ast.targets[0], ast.Name):
                 zname = n.ast.targets[0].id
-    for n in cfg0.nodes:
-        if loop0.id in n.loops and n.pending is None and isinstance(n.ast, ast.Assign):
-            t = n.ast.targets[0]
-            if isinstance(t, ast.Tuple) and isinstance(n.ast.value, ast.Name) and n.ast.value.id == zname:
-                unpack = n
+    unpack = find_unpack(cfg0, loop0.id, zname, pending_none=True)
     ck.need(zname and unpack is not None, f'{m.outer.key}: consumer does not unpack the dequeued item')
-    names = [e.id if isinstance(e, ast.Name) else None for e in unpack.ast.targets[0].elts]
+    names = unpack.names
     if len(names) < 2 or names[0] is None or names[1] is None:
         ck.ob(rid, m.outer, unpack.ast, False, 'consumer unpack is not `(x, future, …)`')
         return
